@@ -102,6 +102,9 @@ func Analyse(src []byte) (areas []Area, ok bool) {
 			if fld.Tag == nil || fld.Comment == nil {
 				continue
 			}
+			// every "@tag ..." comment behind the field contributes its pairs, in comment order, to one injection
+			var inj []Item
+			annotated := false
 			for _, cm := range fld.Comment.List {
 				k := strings.Index(cm.Text, "@tag ")
 				if k < 0 {
@@ -114,16 +117,21 @@ func Analyse(src []byte) (areas []Area, ok bool) {
 				if rest == "" {
 					continue
 				}
-				lit := fld.Tag.Value
-				name := ""
-				if len(fld.Names) > 0 {
-					name = fld.Names[0].Name
-				}
-				areas = append(areas, Area{
-					TagStart: fset.Position(fld.Tag.Pos()).Offset, TagEnd: fset.Position(fld.Tag.End()).Offset,
-					Cur: ParseTag(lit[1 : len(lit)-1]), Inj: ParseTag(rest), Field: name,
-				})
+				annotated = true
+				inj = append(inj, ParseTag(rest)...)
 			}
+			if !annotated {
+				continue
+			}
+			lit := fld.Tag.Value
+			name := ""
+			if len(fld.Names) > 0 {
+				name = fld.Names[0].Name
+			}
+			areas = append(areas, Area{
+				TagStart: fset.Position(fld.Tag.Pos()).Offset, TagEnd: fset.Position(fld.Tag.End()).Offset,
+				Cur: ParseTag(lit[1 : len(lit)-1]), Inj: inj, Field: name,
+			})
 		}
 	}
 	return areas, true
@@ -324,6 +332,13 @@ func FieldMenu() []FieldVariant {
 	add("F27-kept-value-with-comma-and-blanks", "Desc string `json:\"desc\" description:\"first name,   then family name,  or both\"` // @tag valid:\"required, to=1~3\"", true)
 	add("F27-same-length-override", "Nick string `json:\"name,omitempty\"` // @tag json:\"nick,omitempty\"", true)
 	add("F25-first-key-avro-tag-a", "Avro string `json:\"avro_f\"` // @tag avro:\"alt_name\" tag:\"x\" a:\"1\" gg:\"2\"", true)
+	// two annotated comments behind one field (block comment + line comment, two block comments), distinct keys; in the
+	// "shrinking" variants the first comment's override makes the field much shorter or longer before the second applies
+	add("F28-two-annotated-comments", "TwoC string `json:\"two_c\"` /* @tag valid:\"required\" */ // @tag form:\"two\"", true)
+	add("F28-two-block-comments", "TwoB string `json:\"two_b\" xml:\"b\"` /* @tag xml:\"bb\" */ /* 说明 @tag valid:\"to=1~9\" */", true)
+	add("F28-two-annotated-comments-shrinking", "TwoS string `json:\"two_s\" description:\"a long description of this field that an annotation replaces by a much shorter text, so that the field shrinks\"` /* @tag description:\"d\" */ // @tag valid:\"required\"", true)
+	add("F28-two-annotated-comments-growing", "TwoG string `json:\"g\"` /* @tag json:\"a_much_longer_name_than_before_so_that_the_field_grows_by_more_than_the_rest_of_the_line,omitempty\" */ // @tag valid:\"required\"", true)
+	add("F28-plain-then-annotated-comment", "TwoP string `json:\"two_p\"` /* 说明 */ // @tag valid:\"required\"", true)
 	// keys that are a suffix / prefix of another key, same value: key matching must be on whole keys
 	add("F17-key-suffix-of-existing", "KeySuffix string `binding_valid:\"required\" json:\"ks\"` // @tag valid:\"required\"", true)
 	add("F17-key-prefix-of-existing", "KeyPrefix string `json:\"kp\" validx:\"required\"` // @tag valid:\"required\" json:\"kp\"", true)
@@ -353,6 +368,8 @@ func DupKeyMenu() []FieldVariant {
 		{"D14-empty-raw-tag-literal", "EmptyRaw string `` // @tag valid:\"required\"", true},
 		{"D15-key-twice-in-existing-tag-and-overridden", "Twice string `json:\"name\" xml:\"x\" json:\"nick\"` // @tag json:\"nick2\"", true},
 		{"D16-key-twice-in-existing-tag-not-overridden", "Twice2 string `json:\"name\" json:\"nick\"` // @tag valid:\"required\"", true},
+		// two annotated comments behind one field naming the same key (which one wins is not specified)
+		{"D17-two-annotated-comments-same-key", "TwoK string `json:\"two_k_with_a_long_name_that_will_be_replaced_by_something_short\"` /* @tag json:\"a\" */ // @tag json:\"b\"", true},
 		{"D11-only-unrecognised-text", "OnlyU string `bson:\"\"` // @tag valid:\"required\"", true},
 	}
 }
